@@ -7,11 +7,15 @@
   C08a says: every other view — computed by the model function of *its own* read path, with its own
   synchronisation calls — is a projection of `viewList e`, in the same order.  C08b: the invariant over all
   histories.  C08c: invalid names.  C08d: the rendered start tag read back.  C08e: copies.
+  C08f (`write_read_*`, `write_frame*`, `write_list_*`): what the WRITERS do to that mapping — the written key reads
+  back the written value through every reader, every other key reads what it read before (for every operation of
+  the store: `write_frame`), and the list changes as a Python dict does (an existing key keeps its place, a new key
+  goes last).  Without them C08a–e would hold of a store whose writers do nothing.
   `T : Tables` (constants.py) is universally quantified.  "Ordinary key" = neither `class` nor `style`
   (C09 / C10 treat those) and not a boolean-*string* attribute (`spellcheck`, whose value is normalised to
   "true"/"false" by the store).
 -/
-import AHP.Lemmas.AttrsCopy
+import AHP.Lemmas.AttrsWriteRead
 namespace AHP.C08
 open AHP AHP.Attrs
 
@@ -564,6 +568,283 @@ theorem dotGet_special_reads_only (T : Tables) {ρ : Type} (R : SpecialRule ρ) 
 theorem getAttribute_symbolic_default (T : Tables) (k : Str) (d : PyVal) (e : El) :
     getAttribute T k d e = (((getAttributeOpt T k e).1).getD d, (getAttributeOpt T k e).2) :=
   getAttribute_eq_opt T k d e
+
+/-! ### C08f — WRITE → READ and FRAME: what the writers do to the one mapping
+
+  Keys other than `class` / `style` (those two: C09 `write_read_*`, C10 `write_read_*`).  The writers of the property:
+  `setAttribute`, `attributes[k] = v` (`mapSet`), `removeAttribute`, `del attributes[k]` (`mapDel`), `setAttributes`,
+  dot-assignment of a linked name (`dotSet`).  Readers: the one list (`viewList` — hence `items()`, `keys()`,
+  `getAttributesList()`, the rendered start tag and the DOM node map by C08a), `attributes[k]`, `attributes.get`,
+  `getAttribute`, `hasAttribute`, `in`, the DOM node. -/
+
+/-- reachability is closed under every operation -/
+theorem reach_step {T : Tables} {e : El} (h : Reach T e) (op : Op) : Reach T (step T e op).2 := by
+  obtain ⟨tag, sc, attrs, ops, rfl⟩ := h
+  refine ⟨tag, sc, attrs, ops ++ [op], ?_⟩
+  unfold run
+  rw [List.foldl_append]
+  rfl
+
+/-- `setAttribute` with a valid name is `attributes[name] = value` -/
+theorem setAttribute_is_mapSet (T : Tables) {k : Str} (hv : validName k = true) (v : Option Str) (e : El) :
+    setAttribute T k v e = mapSet T k v e := setAttribute_eq_mapSet T hv v e
+
+/-- `removeAttribute` is `del attributes[name]` -/
+theorem removeAttribute_is_mapDel (k : Str) (e : El) : removeAttribute k e = mapDel k e := by
+  unfold removeAttribute mapDel
+  rw [lower_idem]
+
+/-- WRITE → READ, the list: after `setAttribute(k, v)` / `attributes[k] = v` the one list holds, under the lower-cased
+    name, the written value (`None` = value-less) — for a boolean-string key `convertToBooleanString(v)`
+    (`normVal`; `boolstr_stored`) -/
+theorem write_read_listed (T : Tables) {e : El} (h : DictInv e) {k : Str} (hv : validName k = true)
+    (hc : lower k ≠ classK) (hs : lower k ≠ styleK) (v : Option Str) :
+    aget (lower k) (viewList (setAttribute T k v e).2) = some (normVal T (lower k) v) ∧
+    aget (lower k) (viewList (mapSet T k v e).2) = some (normVal T (lower k) v) := by
+  rw [setAttribute_eq_mapSet T hv]
+  exact ⟨mapSet_listed T h hv hc hs v, mapSet_listed T h hv hc hs v⟩
+
+/-- WRITE → READ, every per-key reader, ordinary key: after `setAttribute(k, v)` (any spelling of `k`)
+    `attributes[k]`, `attributes.get(k, d)` and the DOM node give `v` back, `hasAttribute` / `in` say present, and
+    `getAttribute(k, d)` gives `v` — for a boolean attribute name (`TAG_ITEM_BINARY_ATTRIBUTES`): `True` when `v` is
+    `None` or `''` (presence), else `v`. -/
+theorem write_read_readers (T : Tables) {e : El} (hr : Reach T e) {k : Str} (hv : validName k = true)
+    (ho : Ordinary T k) (v : Option Str) (d : PyVal) :
+    getitem T k (setAttribute T k v e).2 = pyOfOpt v ∧
+    (mapGet T k d (setAttribute T k v e).2).1 = pyOfOpt v ∧
+    hasAttribute k (setAttribute T k v e).2 = true ∧ contains k (setAttribute T k v e).2 = true ∧
+    domItem T k (setAttribute T k v e).2 = some (lower k, pyOfOpt v) ∧
+    (getAttribute T k d (setAttribute T k v e).2).1 =
+      (if T.binary.contains k then (if (pyOfOpt v).falsy then .bool true else pyOfOpt v) else pyOfOpt v) := by
+  have h := reach_inv hr
+  have h' : DictInv (setAttribute T k v e).2 := dictInv_setAttribute T k v h
+  have hl : aget (lower k) (viewList (setAttribute T k v e).2) = some v := by
+    rw [(write_read_listed T h hv ho.notClass ho.notStyle v).1, normVal_of_not_binStr T ho.notBinStr]
+  refine ⟨?_, ?_, ?_, ?_, ?_, ?_⟩
+  · rw [getitem_proj T h' ho, hl]; rfl
+  · rw [mapGet_proj T h' ho, hl]
+  · rw [hasAttribute_proj h', hl]; rfl
+  · rw [contains_proj h', hl]; rfl
+  · rw [domItem_proj T h' ho, hl]; rfl
+  · cases hb : T.binary.contains k with
+    | true => simp only [if_true]; rw [getAttribute_boolean T h' ho hb, hl]
+    | false => simp only [Bool.false_eq_true, if_false]; rw [getAttribute_proj T h' ho hb, hl]
+
+/-- WRITE → READ for a boolean-string key (`spellcheck`): every reader gives `convertToBooleanString(v)` — `'true'` /
+    `'false'` — back -/
+theorem write_read_boolstr (T : Tables) {e : El} (hr : Reach T e) {k : Str} (hv : validName k = true)
+    (hk : BoolStr T k) (hb : T.binary.contains k = false) (v : Option Str) (d : PyVal) :
+    getitem T k (setAttribute T k v e).2 = .str (boolString v) ∧
+    (getAttribute T k d (setAttribute T k v e).2).1 = .str (boolString v) ∧
+    hasAttribute k (setAttribute T k v e).2 = true := by
+  have hr' : Reach T (setAttribute T k v e).2 := reach_step hr (.setAttr k v)
+  have hl := (boolstr_stored T (reach_inv hr) hv hk v).2
+  refine ⟨?_, ?_, ?_⟩
+  · rw [boolstr_getitem T hr' hk, hl]; rfl
+  · rw [boolstr_getAttribute T hr' hk hb, hl]; rfl
+  · rw [hasAttribute_proj (reach_inv hr'), hl]; rfl
+
+/-- WRITE → READ for the removers: after `removeAttribute(k)` / `del attributes[k]` the name is not listed … -/
+theorem remove_read_listed {e : El} (h : DictInv e) {k : Str} (hc : lower k ≠ classK) (hs : lower k ≠ styleK) :
+    aget (lower k) (viewList (removeAttribute k e)) = none ∧ aget (lower k) (viewList (mapDel k e)) = none := by
+  rw [removeAttribute_is_mapDel]
+  exact ⟨mapDel_listed h hc hs, mapDel_listed h hc hs⟩
+
+/-- … and every per-key reader reports it absent: `attributes[k]` is `None`, `get` / `getAttribute` hand back the
+    default (`getAttribute` of a boolean attribute name: `False`), `hasAttribute` / `in` say no, there is no DOM node -/
+theorem remove_read_readers (T : Tables) {e : El} (hr : Reach T e) {k : Str} (ho : Ordinary T k) (d : PyVal) :
+    getitem T k (removeAttribute k e) = .none ∧ (mapGet T k d (removeAttribute k e)).1 = d ∧
+    hasAttribute k (removeAttribute k e) = false ∧ contains k (removeAttribute k e) = false ∧
+    domItem T k (removeAttribute k e) = none ∧
+    (getAttribute T k d (removeAttribute k e)).1 = (if T.binary.contains k then .bool false else d) := by
+  have h := reach_inv hr
+  have h' : DictInv (removeAttribute k e) := by rw [removeAttribute_is_mapDel]; exact dictInv_mapDel k h
+  have hl := (remove_read_listed h ho.notClass ho.notStyle (k := k)).1
+  refine ⟨?_, ?_, ?_, ?_, ?_, ?_⟩
+  · rw [getitem_proj T h' ho, hl]; rfl
+  · rw [mapGet_proj T h' ho, hl]
+  · rw [hasAttribute_proj h', hl]; rfl
+  · rw [contains_proj h', hl]; rfl
+  · rw [domItem_proj T h' ho, hl]; rfl
+  · cases hb : T.binary.contains k with
+    | true => simp only [if_true]; rw [getAttribute_boolean T h' ho hb, hl]
+    | false => simp only [Bool.false_eq_true, if_false]; rw [getAttribute_proj T h' ho hb, hl]
+
+/-- **FRAME, the list.** For EVERY operation of the store (the six attribute writers, the class writers, the style
+    writers, the synchronising readers) and every key it does not address (`addresses T op`: the lower-cased name(s)
+    written; `class` for the class writers, `style` for the style writers; nothing for a reader): the key is listed
+    afterwards exactly as before — present or absent, same value; `class` and `style` included. -/
+theorem write_frame (T : Tables) (op : Op) {e : El} (h : DictInv e) {k : Str} (hk : k ∉ addresses T op) :
+    aget k (viewList (step T e op).2) = aget k (viewList e) := frame_lookup T op h hk
+
+/-- FRAME, every per-key reader: a key the operation does not address reads, through `attributes[k]`, `get`,
+    `getAttribute`, `hasAttribute`, `in` and the DOM node, what it read before (any spelling of the key) -/
+theorem write_frame_readers (T : Tables) (op : Op) {e : El} (hr : Reach T e) {k : Str}
+    (hc : lower k ≠ classK) (hs : lower k ≠ styleK) (hk : lower k ∉ addresses T op) (d : PyVal) :
+    getitem T k (step T e op).2 = getitem T k e ∧ (mapGet T k d (step T e op).2).1 = (mapGet T k d e).1 ∧
+    (getAttribute T k d (step T e op).2).1 = (getAttribute T k d e).1 ∧
+    hasAttribute k (step T e op).2 = hasAttribute k e ∧ contains k (step T e op).2 = contains k e ∧
+    domItem T k (step T e op).2 = domItem T k e :=
+  readers_congr T (reach_inv hr) (reach_inv (reach_step hr op)) (reach_normalised hr)
+    (reach_normalised (reach_step hr op)) hc hs (frame_lookup T op (reach_inv hr) hk) d
+
+/-- FRAME for the two special keys, state level: an operation that does not address `class` leaves the class list —
+    hence every class view of C09 — alone; one that does not address `style` leaves the style map (C10) alone -/
+theorem write_frame_class_style (T : Tables) (op : Op) (e : El) :
+    (classK ∉ addresses T op → (step T e op).2.cls = e.cls) ∧ (styleK ∉ addresses T op → (step T e op).2.sty = e.sty) :=
+  ⟨step_cls_of_addresses T op e, step_sty_of_addresses T op e⟩
+
+/-- **The list as a LIST after a write.**  `setAttribute(k, v)` / `attributes[k] = v` is `d[k] = v` on the one list:
+    an existing key keeps its place (`listed_existing_keeps_place`), a new key goes last (`listed_new_goes_last`).
+    Hypothesis `ClassSynced e`: the `class` key of the dict is in step with the class list — the state any
+    list-shaped reader leaves (`write_list_set_after_read`); the list before a write can only have been observed in
+    such a state.  (`write_list_pending_class`: what happens otherwise.) -/
+theorem write_list_set (T : Tables) {e : El} (h : DictInv e) (hp : ClassSynced e) {k : Str} (hv : validName k = true)
+    (hc : lower k ≠ classK) (hs : lower k ≠ styleK) (v : Option Str) :
+    viewList (setAttribute T k v e).2 = aset (lower k) (normVal T (lower k) v) (viewList e) ∧
+    viewList (mapSet T k v e).2 = aset (lower k) (normVal T (lower k) v) (viewList e) := by
+  rw [setAttribute_eq_mapSet T hv]
+  exact ⟨viewList_mapSet T h hp.mpr hv hc hs v, viewList_mapSet T h hp.mpr hv hc hs v⟩
+
+/-- every list-shaped reader (`items()`, `keys()`, `getAttributesList()`, `getStartTag()`, the DOM node map) leaves
+    such a state, and leaves the list as it is -/
+theorem write_list_set_after_read (T : Tables) {e : El} (h : DictInv e) {k : Str} (hv : validName k = true)
+    (hc : lower k ≠ classK) (hs : lower k ≠ styleK) (v : Option Str) :
+    ClassSynced (handleClassAttr e) ∧ viewList (handleClassAttr e) = viewList e ∧
+    viewList (setAttribute T k v (handleClassAttr e)).2 = aset (lower k) (normVal T (lower k) v) (viewList e) := by
+  refine ⟨classSynced_sync e, viewList_sync_list h, ?_⟩
+  rw [(write_list_set T (dictInv_handleClassAttr h) (classSynced_sync e) hv hc hs v).1, viewList_sync_list h]
+
+/-- in EVERY state the list without its `class` entry follows the dict discipline … -/
+theorem write_list_set_general (T : Tables) {e : El} (h : DictInv e) {k : Str} (hv : validName k = true)
+    (hc : lower k ≠ classK) (hs : lower k ≠ styleK) (v : Option Str) :
+    adel classK (viewList (setAttribute T k v e).2) = aset (lower k) (normVal T (lower k) v) (adel classK (viewList e)) := by
+  rw [setAttribute_eq_mapSet T hv]
+  exact viewList_mapSet_general T h hv hc hs v
+
+/-- `d[k] = v` on a list: an existing key keeps its place (the names and their order do not change) … -/
+theorem listed_existing_keeps_place {k : Str} (v : Option Str) {l : List (Str × Option Str)} (hk : k ∈ akeys l) :
+    akeys (aset k v l) = akeys l := akeys_aset_of_mem v hk
+
+/-- … a new key goes last -/
+theorem listed_new_goes_last {k : Str} (v : Option Str) {l : List (Str × Option Str)} (hk : k ∉ akeys l) :
+    aset k v l = l ++ [(k, v)] := aset_of_not_mem v hk
+
+/-- `removeAttribute(k)` / `del attributes[k]` is `del d[k]` on the one list — every other entry keeps its place —
+    in every state -/
+theorem write_list_remove (e : El) {k : Str} (hc : lower k ≠ classK) (hs : lower k ≠ styleK) :
+    viewList (removeAttribute k e) = adel (lower k) (viewList e) ∧ viewList (mapDel k e) = adel (lower k) (viewList e) := by
+  rw [removeAttribute_is_mapDel]
+  exact ⟨viewList_mapDel hc hs, viewList_mapDel hc hs⟩
+
+/-- `setAttributes(dict)` with valid names is the sequence of `setAttribute` calls in the order of the dict (with an
+    invalid name: `invalid_setAttributes`) — every law above applies call by call … -/
+theorem setAttributes_is_fold (T : Tables) (l : List (Str × Option Str)) (e : El) (hl : ∀ p ∈ l, validName p.1 = true) :
+    setAttributes T l e = (.ok, l.foldl (fun e p => (setAttribute T p.1 p.2 e).2) e) := setAttributes_fold T l e hl
+
+/-- … so afterwards every key other than class / style holds what the LAST entry naming it (case-insensitively)
+    assigned, and a key no entry names holds what it held -/
+theorem write_read_setAttributes (T : Tables) {e : El} (h : DictInv e) (l : List (Str × Option Str))
+    (hl : ∀ p ∈ l, validName p.1 = true) {k : Str} (hc : k ≠ classK) (hs : k ≠ styleK) :
+    aget k (viewList (setAttributes T l e).2) =
+      match lastAssigned k l with
+      | some v => some (normVal T k v)
+      | none => aget k (viewList e) := by
+  rw [setAttributes_fold T l e hl]
+  exact foldl_setAttribute_listed T hc hs l h hl
+
+/-! dot-assignment of a linked name (`tag.<name> = value`, name in `TAG_ITEM_ATTRIBUTE_LINKS` for the tag, without a
+    validation rule — those are C19's): which writer it is, and what the dot read gives back -/
+
+/-- a plain linked name: `setAttribute(attr, tostr(value))` -/
+theorem dot_write_plain (T : Tables) {n : Str} {L : Link} (hn : n ≠ classNameK) (hl : aget n T.links = some L)
+    (hval : L.validated = false) (hbs : L.binStr = false) (hb : L.bin = false) (v : DotVal) (e : El) :
+    dotSet T n v e = setAttribute T L.attr (some v.tostr) e := by
+  unfold dotSet
+  simp only [hn, if_false, hl, hval, hbs, hb, Bool.false_eq_true]
+
+/-- a boolean linked name: truthy → `setAttribute(attr, '')`, falsy → `removeAttribute(attr)` -/
+theorem dot_write_boolean (T : Tables) {n : Str} {L : Link} (hn : n ≠ classNameK) (hl : aget n T.links = some L)
+    (hval : L.validated = false) (hbs : L.binStr = false) (hb : L.bin = true) (v : DotVal) (e : El) :
+    dotSet T n v e = if v.truthy then setAttribute T L.attr (some []) e else (.ok, removeAttribute L.attr e) := by
+  unfold dotSet
+  simp only [hn, if_false, hl, hval, hbs, hb, Bool.false_eq_true, if_true]
+
+/-- WRITE → READ through the dot, plain linked name: `tag.<name> = v; tag.<name>` gives `tostr(v)` -/
+theorem dot_write_read_plain (T : Tables) {e : El} (hr : Reach T e) {n : Str} {L : Link} (hn : n ≠ classNameK)
+    (hl : aget n T.links = some L) (hval : L.validated = false) (hsp : L.special = false) (hbs : L.binStr = false)
+    (hb : L.bin = false) (hv : validName L.attr = true) (ho : Ordinary T L.attr)
+    (hnb : T.binary.contains L.attr = false) (v : DotVal) :
+    (dotSet T n v e).1 = .ok ∧ (dotGet T n (dotSet T n v e).2).1 = some (.str v.tostr) := by
+  rw [dot_write_plain T hn hl hval hbs hb]
+  refine ⟨setAttribute_valid T hv _ e, ?_⟩
+  have h' : DictInv (setAttribute T L.attr (some v.tostr) e).2 := dictInv_setAttribute T _ _ (reach_inv hr)
+  rw [dotGet_plain T h' hn hl hsp hbs hb ho hnb, (write_read_listed T (reach_inv hr) hv ho.notClass ho.notStyle _).1,
+      normVal_of_not_binStr T ho.notBinStr]
+  rfl
+
+/-- WRITE → READ through the dot, boolean linked name (`tag.hidden = v; tag.hidden`): `bool(v)` — presence -/
+theorem dot_write_read_boolean (T : Tables) {e : El} (hr : Reach T e) {n : Str} {L : Link} (hn : n ≠ classNameK)
+    (hl : aget n T.links = some L) (hval : L.validated = false) (hsp : L.special = false) (hbs : L.binStr = false)
+    (hb : L.bin = true) (hv : validName L.attr = true) (ho : Ordinary T L.attr)
+    (hnb : T.binary.contains L.attr = true) (v : DotVal) :
+    (dotSet T n v e).1 = .ok ∧ (dotGet T n (dotSet T n v e).2).1 = some (.bool v.truthy) := by
+  rw [dot_write_boolean T hn hl hval hbs hb]
+  cases hvt : v.truthy with
+  | true =>
+    simp only [if_true]
+    refine ⟨setAttribute_valid T hv _ e, ?_⟩
+    have h' : DictInv (setAttribute T L.attr (some []) e).2 := dictInv_setAttribute T _ _ (reach_inv hr)
+    rw [dotGet_boolean T h' hn hl hsp hbs hb ho hnb, (write_read_listed T (reach_inv hr) hv ho.notClass ho.notStyle _).1]
+    rfl
+  | false =>
+    simp only [Bool.false_eq_true, if_false]
+    refine ⟨trivial, ?_⟩
+    have h' : DictInv (removeAttribute L.attr e) := by
+      rw [removeAttribute_is_mapDel]; exact dictInv_mapDel _ (reach_inv hr)
+    rw [dotGet_boolean T h' hn hl hsp hbs hb ho hnb, (remove_read_listed (reach_inv hr) ho.notClass ho.notStyle).1]
+    rfl
+
+/-- a boolean-string linked name (`tag.spellcheck = v`): `setAttribute(attr, convertToBooleanString(v))` followed by a
+    read that may synchronise — the outcome is ok and the list is the list after that `setAttribute` -/
+theorem dot_write_boolstr (T : Tables) {e : El} (h : DictInv e) {n : Str} {L : Link} (hn : n ≠ classNameK)
+    (hl : aget n T.links = some L) (hval : L.validated = false) (hbs : L.binStr = true)
+    (hv : validName L.attr = true) (v : DotVal) :
+    (dotSet T n v e).1 = .ok ∧
+    viewList (dotSet T n v e).2 = viewList (setAttribute T L.attr (some v.boolString) e).2 := by
+  have ho := setAttribute_valid T hv (some v.boolString) e
+  have h1 : DictInv (setAttribute T L.attr (some v.boolString) e).2 := dictInv_setAttribute T _ _ h
+  unfold dotSet
+  simp only [hn, if_false, hl, hval, hbs, Bool.false_eq_true, if_true]
+  rcases hs : setAttribute T L.attr (some v.boolString) e with ⟨o, e'⟩
+  rw [hs] at ho h1
+  simp only at ho h1
+  subst ho
+  simp only
+  refine ⟨trivial, ?_⟩
+  rcases getAttribute_snd T L.attr PyVal.none e' with hg | hg <;> rw [hg]
+  exact viewList_sync_list h1
+
+/-- WRITE → READ through the dot, boolean-string linked name: `tag.spellcheck = v; tag.spellcheck` is `True` exactly
+    when `convertToBooleanString(v)` is `'true'` -/
+theorem dot_write_read_boolstr (T : Tables) {e : El} (hr : Reach T e) {n : Str} {L : Link} (hn : n ≠ classNameK)
+    (hl : aget n T.links = some L) (hval : L.validated = false) (hsp : L.special = false) (hbs : L.binStr = true)
+    (hv : validName L.attr = true) (hk : BoolStr T L.attr) (hnb : T.binary.contains L.attr = false) (v : DotVal) :
+    (dotGet T n (dotSet T n v e).2).1 = some (.bool (decide (v.boolString = strTrue))) := by
+  have hr' : Reach T (dotSet T n v e).2 := reach_step hr (.dot n v)
+  rw [boolstr_dotGet T hr' hn hl hsp hbs hk hnb, (dot_write_boolstr T (reach_inv hr) hn hl hval hbs hv v).2,
+      (boolstr_stored T (reach_inv hr) hv hk (some v.boolString)).2]
+  have hid : boolString (some v.boolString) = v.boolString := by
+    cases v with
+    | none => decide
+    | str s => exact boolString_idem (some s)
+    | bool b => cases b <;> decide
+  rw [hid]
+  congr 2
+  by_cases hh : v.boolString = strTrue
+  · rw [hh]; simp
+  · have : ¬ (some (some v.boolString) = some (some strTrue)) := fun h => hh (Option.some.inj (Option.some.inj h))
+    rw [decide_eq_false hh, decide_eq_false this]
 
 /-! ### non-vacuity -/
 
